@@ -1,11 +1,14 @@
 package checks
 
 import (
+	"net"
+
 	"github.com/hugelgupf/p9/p9"
 
 	"verif/internal/memfs"
 	"verif/internal/rawpeer"
 	"verif/internal/wire"
+	"verif/internal/xport"
 )
 
 // Linux errno numbers used by oracles (independent of linux/errno.go).
@@ -50,7 +53,23 @@ type sess struct {
 }
 
 func newSess(srv *p9.Server, msize uint32, version string) (*sess, rawpeer.Result) {
-	p := rawpeer.New(srv, nil)
+	return newSessOn(srv, msize, version, nil)
+}
+
+// sockOpts makes a raw peer talk to the server over an AF_UNIX socket pair
+// (the server's vectorised receive path; big frames arrive in pieces).
+func sockOpts() *rawpeer.Options {
+	return &rawpeer.Options{Conns: func() (net.Conn, net.Conn) {
+		sp, err := xport.NewSockPair()
+		if err != nil {
+			return net.Pipe()
+		}
+		return sp.A, sp.B
+	}}
+}
+
+func newSessOn(srv *p9.Server, msize uint32, version string, o *rawpeer.Options) (*sess, rawpeer.Result) {
+	p := rawpeer.New(srv, o)
 	r := p.Version(msize, version)
 	return &sess{P: p, Srv: srv}, r
 }
